@@ -80,24 +80,31 @@ Qed.
 (* ------------------------------------------------------------------ *)
 (* unfolding of bp through top-level names for its local fixpoints     *)
 
-Definition cols_of (g : skel -> N -> entry) : list skel -> N -> list entry :=
-  fix cols (ns : list skel) (dn' : N) : list entry :=
+Definition cols_of (g : skel -> N -> tentry) : list skel -> N -> list tentry :=
+  fix cols (ns : list skel) (dn' : N) : list tentry :=
     match ns with
     | [] => []
     | nc :: ns' => g nc dn' :: cols ns' (dn' + size nc)
     end.
 
-Definition rows_of (f : skel -> skel -> N -> N -> entry) (ncs : list skel) (dn : N)
-  : list skel -> N -> list (list entry) :=
-  fix rows (os : list skel) (so' : N) : list (list entry) :=
+Definition rows_of (f : skel -> skel -> N -> N -> tentry) (ncs : list skel) (dn : N)
+  : list skel -> N -> list (list tentry) :=
+  fix rows (os : list skel) (so' : N) : list (list tentry) :=
     match os with
     | [] => []
     | oc :: os' =>
         cols_of (fun nc dn' => f oc nc so' dn') ncs dn :: rows os' (so' + size oc)
     end.
 
-Definition mk_table (ocs ncs : list skel) (so dn : N) : list (list entry) :=
-  rows_of bp ncs dn ocs so.
+Definition bp_pair (oc nc : skel) (so dn : N) : tentry := (bp oc nc so dn, nodes_match oc nc).
+
+Definition mk_table (ocs ncs : list skel) (so dn : N) : list (list tentry) :=
+  rows_of bp_pair ncs dn ocs so.
+
+Definition tentry_at (table : list (list tentry)) (i j : nat) : tentry :=
+  nth j (nth i table []) (([], 0), false).
+
+Definition bp_scale (ocs ncs : list skel) : N := 2 * N.of_nat (length ocs + length ncs + 1).
 
 Lemma bp_unfold : forall o n so dn,
   bp o n so dn =
@@ -105,7 +112,8 @@ Lemma bp_unfold : forall o n so dn,
   else match o, n with
        | FnCall ocs, FnCall ncs =>
            let table := mk_table ocs ncs so dn in
-           let rs := lcs_by_score (length ocs) (length ncs) (map (map snd) table) in
+           let rs := lcs_by_score (length ocs) (length ncs)
+                       (map (map (pair_score (bp_scale ocs ncs))) table) in
            (nodup patch_eq_dec (collect table rs), collect_cells table rs)
        | _, _ => ([], 0)
        end.
@@ -161,7 +169,7 @@ Proof.
 Qed.
 
 Lemma cols_of_nth : forall g ns dn j d, (j < length ns)%nat ->
-  nth j (cols_of g ns dn) ([], 0) = g (nth j ns d) (dn + offs ns j).
+  nth j (cols_of g ns dn) (([], 0), false) = g (nth j ns d) (dn + offs ns j).
 Proof.
   intros g ns. induction ns as [|x ns IH]; intros dn j d H; cbn [length] in H; [lia|].
   destruct j as [|j].
@@ -187,24 +195,43 @@ Proof.
     rewrite offs_cons_S, N.add_assoc. reflexivity.
 Qed.
 
+Lemma tentry_at_in : forall ocs ncs so dn i j d, (i < length ocs)%nat -> (j < length ncs)%nat ->
+  tentry_at (mk_table ocs ncs so dn) i j =
+  (bp (nth i ocs d) (nth j ncs d) (so + offs ocs i) (dn + offs ncs j),
+   nodes_match (nth i ocs d) (nth j ncs d)).
+Proof.
+  intros ocs ncs so dn i j d Hi Hj. unfold tentry_at, mk_table.
+  rewrite (rows_of_nth _ _ _ _ _ _ d Hi). now rewrite (cols_of_nth _ _ _ _ d Hj).
+Qed.
+
+Lemma tentry_at_out : forall ocs ncs so dn i j,
+  ~ ((i < length ocs)%nat /\ (j < length ncs)%nat) ->
+  tentry_at (mk_table ocs ncs so dn) i j = (([], 0), false).
+Proof.
+  intros ocs ncs so dn i j H. unfold tentry_at, mk_table.
+  destruct (Nat.lt_ge_cases i (length ocs)) as [Hi|Hi].
+  - rewrite (rows_of_nth _ _ _ _ _ _ (Mem 0) Hi).
+    apply nth_overflow. rewrite cols_of_length. lia.
+  - rewrite (nth_overflow (rows_of bp_pair ncs dn ocs so)) by (rewrite rows_of_length; lia).
+    destruct j; reflexivity.
+Qed.
+
+Lemma table_at_tentry : forall T i j, table_at T i j = fst (tentry_at T i j).
+Proof. reflexivity. Qed.
+
 Lemma table_at_in : forall ocs ncs so dn i j d, (i < length ocs)%nat -> (j < length ncs)%nat ->
   table_at (mk_table ocs ncs so dn) i j =
   bp (nth i ocs d) (nth j ncs d) (so + offs ocs i) (dn + offs ncs j).
 Proof.
-  intros ocs ncs so dn i j d Hi Hj. unfold table_at, mk_table.
-  rewrite (rows_of_nth _ _ _ _ _ _ d Hi). now rewrite (cols_of_nth _ _ _ _ d Hj).
+  intros ocs ncs so dn i j d Hi Hj.
+  now rewrite table_at_tentry, (tentry_at_in _ _ _ _ _ _ d Hi Hj).
 Qed.
 
 Lemma table_at_out : forall ocs ncs so dn i j,
   ~ ((i < length ocs)%nat /\ (j < length ncs)%nat) ->
   table_at (mk_table ocs ncs so dn) i j = ([], 0).
 Proof.
-  intros ocs ncs so dn i j H. unfold table_at, mk_table.
-  destruct (Nat.lt_ge_cases i (length ocs)) as [Hi|Hi].
-  - rewrite (rows_of_nth _ _ _ _ _ _ (Mem 0) Hi).
-    apply nth_overflow. rewrite cols_of_length. lia.
-  - rewrite (nth_overflow (rows_of bp ncs dn ocs so)) by (rewrite rows_of_length; lia).
-    destruct j; reflexivity.
+  intros ocs ncs so dn i j H. now rewrite table_at_tentry, tentry_at_out.
 Qed.
 
 (* ------------------------------------------------------------------ *)
@@ -300,7 +327,7 @@ Definition within (so szo dn szn : N) (p : patch) : Prop :=
   so <= p_src p /\ p_src p + p_sz p <= so + szo /\
   dn <= p_dst p /\ p_dst p + p_sz p <= dn + szn.
 
-Lemma blocks_sorted : forall (T : list (list entry)) (A B : nat -> N),
+Lemma blocks_sorted : forall (T : list (list tentry)) (A B : nat -> N),
   (forall i i', (i <= i')%nat -> A i <= A i') ->
   (forall j j', (j <= j')%nat -> B j <= B j') ->
   (forall i j, StronglySorted before (fst (table_at T i j))) ->
